@@ -1,7 +1,7 @@
 """Generators of layer stacks (descriptions for pipeline.Builder / refsem / the Lean bag model)."""
 import random
 
-POOL = ['a', 'b', 'c', 'd', 'e']
+POOL = ['a', 'b', 'c', 'd', 'e', 'ab']      # 'ab': a name whose characters are names too
 
 
 def gen_transform(rng, idx, pool=POOL, allow_params=True, allow_opt=True, avail=None, p_avail=0.85, p_opt=0.3, ghost=()):
@@ -63,6 +63,10 @@ def gen_transform(rng, idx, pool=POOL, allow_params=True, allow_opt=True, avail=
             del d['inherit']
     elif r < 0.7:
         d['exclude'] = rng.sample(full, rng.choice([1, 2]))
+    # a single name may be written as a bare string: __inherit__ = 'ab', __exclude__ = 'ab'
+    for key in ('inherit', 'exclude'):
+        if isinstance(d.get(key), list) and len(d[key]) == 1 and rng.random() < 0.5:
+            d[key + '_str'] = True
     return d
 
 
